@@ -16,7 +16,7 @@ from symx.vloop import CycleBudget, Deadlock, VLoop
 
 def scn(sym, cov, kind, n, modes, cancel=None, native=False, fast=False, eager=False, T=2, J=2, cap=1,
         retotal=False, retotal2=False, fixed_s=False, intruder=False, reacquire=False, rounds=1, capsym=False):
-    """kind: 'lock' | 'sem' | 'lim';  modes[i]: 'a' blocking acquire, 'n' nowait
+    """kind: 'lock' | 'sem' | 'lim';  modes[i]: 'a' blocking acquire, 'n' nowait, 'b' (limiter) acquire_on_behalf_of(an object)
     cancel: index of the task to cancel or None;  cap: permits (sem initial value / limiter total)
     retotal: limiter only -- assign total_tokens = nv at a symbolic instant
     intruder: an extra task calls release() without holding at a symbolic instant
@@ -69,8 +69,16 @@ def scn(sym, cov, kind, n, modes, cancel=None, native=False, fast=False, eager=F
                 st = prim.statistics()
                 return st.locked and st.owner is not None and st.owner.id == id(tasks[i])
             if kind == "lim":
-                return any(b is tasks[i] for b in prim.statistics().borrowers)
+                return any(b is borrower(i) for b in prim.statistics().borrowers)
             return True
+
+        class _Borrower:
+            pass
+
+        objs = [_Borrower() for _ in range(n)]
+
+        def borrower(i):
+            return objs[i] if modes[i] == "b" else tasks[i]
 
         def free_permits():
             if kind == "lock":
@@ -155,13 +163,20 @@ def scn(sym, cov, kind, n, modes, cancel=None, native=False, fast=False, eager=F
                             cov.hit("acquire-in-cancelled-scope")
                         waiting.append(i)
                         try:
-                            await prim.acquire()
-                        except BaseException:
+                            if modes[i] == "b":
+                                await prim.acquire_on_behalf_of(objs[i])
+                            else:
+                                await prim.acquire()
+                        except BaseException as exc_:
                             if i in waiting:
                                 waiting.remove(i)
                             outcome[(i, r)] = "cancelled"
                             if i in holders:
                                 bad("cancelled-acquire-left-holder", i)
+                            if not isinstance(exc_, asyncio.CancelledError):
+                                bad("acquire-raised-internal-error", repr(exc_))
+                            if kind == "lim" and any(b is borrower(i) for b in prim.statistics().borrowers):
+                                bad("cancelled-acquire-left-token-borrowed", i)
                             raise
                         on_grant(i, r)
                     outcome[(i, r)] = "got"
@@ -192,7 +207,10 @@ def scn(sym, cov, kind, n, modes, cancel=None, native=False, fast=False, eager=F
                         await anyio.sleep(h[i])
                     finally:
                         holders.remove(i)
-                        prim.release()
+                        if modes[i] == "b":
+                            prim.release_on_behalf_of(objs[i])
+                        else:
+                            prim.release()
 
         async def intruder_task():
             await anyio.sleep(it)
@@ -264,6 +282,8 @@ def scn(sym, cov, kind, n, modes, cancel=None, native=False, fast=False, eager=F
         except asyncio.CancelledError:
             if not native:
                 raise
+        except BaseExceptionGroup as eg_:
+            bad("task-failed-with-unexpected-error", [repr(x) for x in eg_.exceptions])
         # final state
         if kind == "lock":
             st = prim.statistics()
